@@ -715,7 +715,7 @@ ErrorCode FlexPath::element_center(const FlexPathElement* el, Array<Vec2>& resul
                 const double radius = bend_radius - bend_dir * path_offsets[2 * i];
                 const double len_required = len_factor * radius;
                 if (len_required > len_prev || len_required > len_next ||
-                    radius <= path_half_widths[2 * 1]) {
+                    radius <= path_half_widths[2 * i]) {
                     // Not enough room for the bend
                     result.append(p);
                 } else {
